@@ -187,7 +187,7 @@ theorem checkParsed_plain (p : Parsed) (now : Now)
       (match p.month with | some m => m | none => if p.year.isSome then 1 else now.month),
       (match p.day with | some d => d | none => if p.year.isSome || p.month.isSome then 1 else now.day),
       p.hour.getD 0, p.minute.getD 0, p.second.getD 0, p.microsecond.getD 0, p.tz⟩ := by
-  unfold checkParsed
+  unfold checkParsed checkQuarter checkDayOfYear checkDayOfWeek checkMeridiem checkFinal
   simp only [h1, h2, h3, h4, h5]
   cases hm : p.month <;> cases hd : p.day <;> simp [orNow, bind, Except.bind, pure, Except.pure]
 
@@ -222,7 +222,7 @@ theorem checkParsed_class (p : Parsed) (now : Now) (y mo d h : Int)
     (hhour : (p.meridiem = none ∧ p.hour = some h) ∨
              (∃ k, p.meridiem = some (decide (h ≥ 12)) ∧ p.hour = some k ∧ 1 ≤ k ∧ k ≤ 12 ∧ k % 12 = h % 12 ∧ 0 ≤ h ∧ h ≤ 23)) :
     checkParsed p now = .ok ⟨y, mo, d, h, p.minute.getD 0, p.second.getD 0, p.microsecond.getD 0, p.tz⟩ := by
-  unfold checkParsed
+  unfold checkParsed checkQuarter checkDayOfYear checkDayOfWeek checkMeridiem checkFinal
   simp only [h1, h2, h4, hy]
   rcases hdate with ⟨d1, d2, d3⟩ | ⟨d1, dv, dy1, dy2⟩
   · rcases hhour with ⟨m1, m2⟩ | ⟨k, m1, m2, k1, k2, k3, k4, k5⟩
